@@ -8,8 +8,8 @@ import time
 from . import assemble
 
 VERIF = assemble.VERIF
-CRATE = os.path.join(VERIF, "replay")
-TARGET = os.path.join(VERIF, ".cache", "replay-target")
+CRATE = os.environ.get("VERIF_REPLAY_CRATE") or os.path.join(VERIF, "replay")
+TARGET = os.path.join(os.environ.get("VERIF_CACHE") or os.path.join(VERIF, ".cache"), "replay-target")
 REPO = assemble.REPO
 
 
